@@ -149,6 +149,13 @@ def extremum_candidates(ip, cn, term, fn, _depth=0):
                     out |= extremum_candidates(ip, cn, a, fn, _depth + 1)
             out.discard(ident)
             return out
+        other = "builtins." + ("max" if fn == "min" else "min")
+        if final[0] == "call" and final[1] == other and carried in final[2]:
+            # a running maximum inside a minimum (or the reverse): understood, and not a candidate
+            # set of this extremum - described without the unsummarised-loop spelling
+            inner = extremum_candidates(ip, cn, term, "max" if fn == "min" else "min", _depth + 1)
+            return {f"the {'maximum' if fn == 'min' else 'minimum'} of {{" + ", ".join(sorted(inner))
+                    + "}"}
         return {cn.show(term)}
     s = cn.show(term)
     return {s}
